@@ -95,6 +95,44 @@ func runC16(e *hk.Env) error {
 		inputs = append(inputs, string(b))
 	}
 	e.Stats["random_strings"] = nRandom
+	// every Unicode code point of the BMP (and the astral "special" ranges) embedded in a word: the functions must be
+	// transparent to every character, visible or not (a "bidi hardening" that dropped invisible controls was a seeded regression)
+	nUni := 0
+	addCP := func(cp rune) {
+		if cp >= 0xD800 && cp <= 0xDFFF {
+			return
+		}
+		c := string(cp)
+		inputs = append(inputs, "a"+c+"b")
+		nUni++
+		if cp%16 == 0 || (cp >= 0x2000 && cp <= 0x206F) || (cp >= 0xFE00 && cp <= 0xFEFF) {
+			inputs = append(inputs, c, "~/"+c+"'"+c, c+c+" "+c)
+			nUni += 3
+		}
+	}
+	for cp := rune(1); cp <= 0xFFFF; cp++ {
+		addCP(cp)
+	}
+	for _, rg := range [][2]rune{{0x1F300, 0x1F64F}, {0xE0000, 0xE007F}, {0xE0100, 0xE01EF}, {0x10FFF0, 0x10FFFF}, {0x1D400, 0x1D4FF}} {
+		for cp := rg[0]; cp <= rg[1]; cp++ {
+			addCP(cp)
+		}
+	}
+	if e.Thorough() {
+		for cp := rune(0x10000); cp <= 0x10FFFF; cp += 7 {
+			addCP(cp)
+		}
+	}
+	// short strings over the invisible / formatting characters
+	special := []rune{0x85, 0xA0, 0xAD, 0x200B, 0x200C, 0x200D, 0x200E, 0x200F, 0x2028, 0x2029, 0x202A, 0x202B, 0x202C, 0x202D, 0x202E,
+		0x2060, 0x2066, 0x2067, 0x2068, 0x2069, 0xFEFF, 0xFFFD, 0xFFFE, 0x0301, 0x1F600}
+	for _, a := range special {
+		for _, b := range special {
+			inputs = append(inputs, string([]rune{a, b}), "x"+string(a)+"'"+string(b)+"y")
+			nUni += 2
+		}
+	}
+	e.Stats["unicode_code_point_cases"] = nUni
 	e.Stats["random_len_hist_by_64"] = lens
 
 	// The functions must not depend on process-global state: repeat a subset of the inputs under other
